@@ -75,6 +75,31 @@ theorem blocked_never_uttered_v1 (cfg : Cfg) (h : HistV1) (t : Turn) (hi : WF cf
   rw [hr] at hx
   exact replyV1_texts_sub _ _ x hx
 
+/-- The reply needs no assumption about the rail flows at all: in Colang 1.0 — even with rail flows
+    that forget to `stop` after raising their exception (the as-shipped `self check output`,
+    `cfg.stops` arbitrary) — every text in the reply is the refusal, the internal-error text, or the LLM
+    text in its final form after every configured output rail let it through. -/
+theorem reply_only_checked_text_v1 (cfg : Cfg) (h : HistV1) (t : Turn) (hs : h.skip = false) :
+    ∀ x ∈ (turnV1 cfg h t).2.1.texts, x = refusal ∨ x = internalError ∨
+      (gateStop t.vout cfg.outRails t.bot = none ∧ x = gateText t.vout cfg.outRails t.bot) := by
+  intro x hx
+  obtain ⟨raised, hr⟩ := turnV1_reply cfg h t
+  have hspec : turnV1 cfg h t = turnSpecV1 cfg h t ∨ excs (turnV1 cfg h t).1 ≠ [] := by
+    by_cases he : cfg.exc = true
+    · by_cases hxs : excs (turnV1 cfg h t).1 = []
+      · exact Or.inl (turnV1_eq_spec_of_no_exc cfg h t he hs hxs)
+      · exact Or.inr hxs
+    · have he' : cfg.exc = false := by simpa using he
+      exact Or.inl (turnV1_eq_spec cfg h t (WF_of_not_exc cfg .input he') (WF_of_not_exc cfg .output he') hs)
+  rcases hspec with hsp | hne
+  · have hu : Step.utter x ∈ (turnV1 cfg h t).1 := by
+      rw [hr] at hx
+      exact replyV1_texts_sub _ _ x hx
+    rw [hsp] at hu
+    exact utter_mem_turnSpecV1 cfg h t x hu
+  · rw [hr, replyV1_texts_nil_of_exc _ _ hne] at hx
+    cases hx
+
 /-- `rewrite_returned`: when the input rails let the message through, no dialog-side action fails and
     every output rail lets the LLM text through, the reply is exactly that text in its final
     rewritten form. -/
@@ -193,5 +218,16 @@ theorem v2_as_is_counterexample :
    { user := "u1", bot := "b1", intent := .free, actFault := false, retrFault := false, vin := fun _ _ => .accept, vout := fun _ _ => .reject },
    { user := "u2", bot := "bad", intent := .free, actFault := false, retrFault := false, vin := fun _ _ => .accept, vout := fun _ _ => .reject },
    rfl, fun _ _ => rfl, fun _ _ => rfl, fun _ => rfl, by decide, by decide, by decide⟩
+
+/-- The as-shipped `self check output` flow of the 2.x library (`abort` nested under `else`:
+    `cfg.stops .output r = false`) does NOT have the property in exception mode: the rejected LLM text
+    "bad" is uttered — and returned — next to the `OutputRailException`.  (Kernel-evaluated witness;
+    `harness/corpus/C02/self_check_output_exception.json` is the same conversation on the real code.) -/
+theorem v2_rail_without_abort_counterexample :
+    ∃ (cfg : Cfg) (t : Turn), cfg.exc = true ∧ cfg.stops .output 100 = false ∧ t.vout 100 t.bot = .reject ∧
+      (turnV2 cfg initV2 t).2.1 = { texts := ["bad"], exc := some .output, raised := false } :=
+  ⟨{ inRails := [], outRails := [100], dialog := false, exc := true, stops := fun _ _ => false, flagReset := true },
+   { user := "u", bot := "bad", intent := .free, actFault := false, retrFault := false, vin := fun _ _ => .accept, vout := fun _ _ => .reject },
+   rfl, rfl, rfl, by decide⟩
 
 end NemoVerif.C02
